@@ -7,25 +7,10 @@
 use crate::core::verif_kani_support::{KReader, KWriter};
 use crate::core::ser::SerializationMode;
 
-static mut CT: u8 = 0;
-fn stub_get_chain_type() -> global::ChainTypes {
-	match unsafe { CT } {
-		0 => global::ChainTypes::AutomatedTesting,
-		1 => global::ChainTypes::UserTesting,
-		2 => global::ChainTypes::Testnet,
-		_ => global::ChainTypes::Mainnet,
-	}
-}
-fn stub_format(_args: core::fmt::Arguments<'_>) -> String {
-	String::new()
-}
+use crate::core::verif_kani_support::{init_globals, stub_format, stub_get_chain_type, CHAIN_TYPE_IDX};
 fn init_ct() -> u8 {
-	let i: u8 = kani::any();
-	kani::assume(i < 4);
-	unsafe {
-		CT = i;
-	}
-	i
+	init_globals();
+	unsafe { CHAIN_TYPE_IDX }
 }
 /// the published limits, written independently of max_msg_size
 fn table(t: u8, ct: u8) -> Option<u64> {
